@@ -71,6 +71,12 @@ class SymFloat:
     __hash__ = None
 
 
+class SymIntFloat(SymFloat):
+    """the same value, presented to the code under test as a Python int (isinstance(x, int) holds; int * float is float arithmetic on the
+    exactly converted value below 2**53)"""
+    __class__ = property(lambda self: int)
+
+
 class RoundCall:
     """what round(proxy, n) returns: a record of the call (the C implementation of float.__round__ is not encoded)"""
     def __init__(self, x, n):
@@ -115,12 +121,12 @@ def ref_decimal(func, m, s, n, neg):
     return float(v)         # Fraction -> float is correctly rounded
 
 
-def _job(func, s, n, neg, mmax, region_src, timeout, with_bound=True):
+def _job(func, s, n, neg, mmax, region_src, timeout, with_bound=True, asint=False):
     RT = build.load_class(build.runtime_source(), '_rt_c16', narrow=False)()
     helper = getattr(RT, func)
     M = z3.BitVec('M', W)
     unit = 10.0 ** (-n)
-    out = dict(func=func, s=s, n=n, neg=neg, paths=0, queries=0, t0=time.time(), exact='unsat', bound='unsat', structural=None)
+    out = dict(func=func, s=s, n=n, neg=neg, asint=asint, paths=0, queries=0, t0=time.time(), exact='unsat', bound='unsat', structural=None)
 
     def region(Mv):
         # known-finding region as a z3 predicate over M (python expression over M, s, n with z3 operators)
@@ -129,7 +135,7 @@ def _job(func, s, n, neg, mmax, region_src, timeout, with_bound=True):
     def run(ex):
         ex.assume(z3.And(z3.ULT(M, mmax), z3.UGE(M, 1)))
         mag = z3.fpDiv(RNE, to_fp(M), z3.FPVal(10 ** s, F64))
-        x = SymFloat(ex, z3.fpNeg(mag) if neg else mag)
+        x = (SymIntFloat if asint else SymFloat)(ex, z3.fpNeg(mag) if neg else mag)
         r = helper(x, n)
         if isinstance(r, RoundCall):
             ok = r.x is x and r.n == n and type(r.n) is int
@@ -171,11 +177,148 @@ def _job(func, s, n, neg, mmax, region_src, timeout, with_bound=True):
 
 FUNCS = ['_roundup', '_rounddown', '_round']
 
+FORMULAS = {'H1': '=ROUNDUP(A1)', 'H2': '=ROUNDUP(A1,)', 'H3': '=ROUNDUP(A1,0)', 'H4': '=ROUNDDOWN(A1)', 'H5': '=ROUNDDOWN(A1,)', 'H6': '=ROUNDDOWN(A1,0)',
+            'H7': '=ROUND(A1,0)', 'H8': '=ROUNDUP(A1,B1)', 'H9': '=ROUNDDOWN(A1,B1)', 'H10': '=ROUND(A1,B1)', 'H11': '=ROUNDUP(A1,1)', 'H12': '=ROUNDDOWN(A1,-1)',
+            'H13': '=ROUND(1260,-2)', 'H14': '=ROUNDUP(-3.14,0)', 'H15': '=ROUNDDOWN(-3.14)', 'H16': '=ROUND(-1260,-2)', 'H17': '=ROUNDUP(1234,-2)',
+            'P1': '=A1%', 'P2': '=0%', 'P3': '=A1%*B1', 'P4': '=B1*A1%', 'P5': '=7%'}
+HELPER_OF = {'ROUNDUP': '_roundup', 'ROUNDDOWN': '_rounddown', 'ROUND': '_round'}
 
-def native(func, m, s, n, neg):
+
+def _formula_job(tier):
+    """Formula level (real lexer/parser/translators on a real .xlsx): (a) the emitted code of ROUND/ROUNDUP/ROUNDDOWN hands (number, digits) to
+    the runtime helper that the FP jobs decide - digits omitted / empty / literal 0 all arrive as 0 -; (b) native values on a witness grid against
+    the decimal-exact oracle; (c) x% == x/100 to 15 significant digits on a native grid of decimals M*10^e (the %.15g formatting is C code: executed,
+    not encoded)."""
+    import re
+    from decimal import Decimal, localcontext
+    from fractions import Fraction
+    t0 = time.time()
+    conds = {}
+    try:
+        src = build.translate([('S', dict({'A1': -3.14, 'B1': 2}, **FORMULAS))])
+    except Exception as e:
+        return dict(error=f'translation of the formula workbook failed: {type(e).__name__}: {e}')
+    K = build.load_class(src, '_c16f', narrow=False)
+    calls = []
+
+    class Spy(K):
+        pass
+    for h in FUNCS:
+        def mk(h):
+            real = getattr(K, h)
+            def spy(self, number, digits):
+                calls.append((h, number, digits))
+                return real(self, number, digits)
+            return spy
+        setattr(Spy, h, mk(h))
+
+    def ev(cls, cell, **ov):
+        args = [{'uid': build.uid(0, a), 'value': cls.EmptyCell() if v is None else v} for a, v in ov.items()]
+        return cls(args).exec_function_in(build.uid(0, cell))
+    # (a) delegation
+    for cell, f in FORMULAS.items():
+        m = re.fullmatch(r'=(ROUNDUP|ROUNDDOWN|ROUND)\((A1)(?:,(B1|-?\d*))?\)', f)
+        if not m:
+            continue
+        bad = None
+        n_cases = 0
+        for x in (-3.14, 3.14, -0.0001, 2.5, -7, 1260, 0):
+            for b in (2, 0, -1):
+                del calls[:]
+                got = ev(Spy, cell, A1=x, B1=b)
+                n_cases += 1
+                digits = b if m.group(3) == 'B1' else int(m.group(3) or 0)
+                want = (HELPER_OF[m.group(1)], x, digits)
+                if len(calls) != 1 or calls[0][0] != want[0] or calls[0][1] != x or type(calls[0][1]) is not type(x) or calls[0][2] != digits:
+                    real = ev(K, cell, A1=x, B1=b)
+                    bad = f'{f} with A1={x!r}, B1={b!r} = {real!r} :: the emitted code does not hand ({x!r}, {digits}) to {want[0]} (calls seen: {calls[:2]})'
+                    break
+            if bad:
+                break
+        conds[f'delegates.{cell}'] = ('violated', n_cases, bad) if bad else ('holds', n_cases, f'{f}: every evaluation is exactly one call {HELPER_OF[m.group(1)]}(A1, digits)')
+    # (b) native witness values against the decimal-exact oracle (numbers with <= 4 decimals; ties of ROUND excluded: recorded finding)
+    XS = [Fraction(k, 10 ** s_) for s_ in (0, 1, 2, 4) for k in (0, 1, 5, 7, 25, 314, 1260, 9999, 12345)]
+    bad = None
+    n_cases = 0
+    for cell, f in FORMULAS.items():
+        m = re.fullmatch(r'=(ROUNDUP|ROUNDDOWN|ROUND)\((A1|-?[\d.]+)(?:,(B1|-?\d*))?\)', f)
+        if not m or bad:
+            continue
+        h = HELPER_OF[m.group(1)]
+        for xq in ([Fraction(m.group(2))] if m.group(2) != 'A1' else [sgn * q for q in XS for sgn in (1, -1)]):
+            for b in ((-2, -1, 0, 1, 2, 3) if m.group(3) == 'B1' else (int(m.group(3) or 0),)):
+                s_ = 0
+                while (xq * 10 ** s_).denominator != 1:
+                    s_ += 1
+                mm = abs(int(xq * 10 ** s_))
+                q = b - s_
+                if h == '_round' and q < 0 and (mm % 10 ** (-q)) * 2 == 10 ** (-q):
+                    continue            # exact tie: Python round() vs Excel, recorded finding
+                if h != '_round' and s_ > 0 and b >= s_ and mm % 5 ** s_ != 0:
+                    continue            # recorded finding region (already at the requested precision, not representable)
+                if h != '_round' and s_ > 0 and 0 <= b < s_:
+                    continue            # representation error of number * 10**n near an integer: covered (and bounded) by the FP jobs, not by this witness grid
+                xv = int(xq) if xq.denominator == 1 else float(xq)
+                try:
+                    got = ev(K, cell, A1=xv, B1=b)
+                except Exception as e:
+                    got = f'{type(e).__name__}: {e}'
+                exp = ref_decimal(h, mm, s_, b, xq < 0)
+                n_cases += 1
+                if not (isinstance(got, (int, float)) and got == exp):
+                    bad = f'{f} with A1={xv!r}, B1={b!r} = {got!r} :: decimal-exact result is {exp!r}'
+                    break
+            if bad:
+                break
+    conds['values.witness_grid'] = ('violated', n_cases, bad) if bad else ('holds', n_cases, 'every witness value equals the decimal-exact result')
+    # (c) percent
+    bad = None
+    n_cases = 0
+    mm_max = 400 if tier == 'quick' else 4000
+
+    def pct_ok(got, exact):
+        if exact == 0:
+            return got == 0
+        return isinstance(got, (int, float)) and abs(Fraction(got) - exact) <= abs(exact) * Fraction(5, 10 ** 15)
+    for cell, args in (('P1', 1), ('P3', 2), ('P4', 2)):
+        for e_ in range(-16, 9):
+            for M in list(range(1, mm_max)) + [0]:
+                for sgn in (1, -1):
+                    x = float(Fraction(sgn * M * 10 ** (e_ + 20), 10 ** 20))
+                    for b in ((3, 0, 0.25) if args == 2 and M % 50 == 1 else (2,)):
+                        try:
+                            got = ev(K, cell, A1=x, B1=b)
+                        except Exception as e:
+                            got = f'{type(e).__name__}: {e}'
+                        exact = Fraction(x) / 100 * (b if args == 2 else 1)
+                        n_cases += 1
+                        if not pct_ok(got, exact):
+                            bad = f'{FORMULAS[cell]} with A1={x!r}' + (f', B1={b!r}' if args == 2 else '') + f' = {got!r} :: x/100 is {float(exact)!r} (not equal to 15 significant digits)'
+                            break
+                    if bad: break
+                if bad: break
+            if bad: break
+        if bad: break
+    if not bad:
+        for cell, ov, exact in (('P2', {}, Fraction(0)), ('P5', {}, Fraction(7, 100)), ('P1', {'A1': None}, Fraction(0)), ('P1', {'A1': 0}, Fraction(0)), ('P3', {'A1': 5, 'B1': 0}, Fraction(0)),
+                                ('P1', {'A1': 7}, Fraction(7, 100)), ('P1', {'A1': True}, Fraction(1, 100))):
+            try:
+                got = ev(K, cell, **ov)
+            except Exception as e:
+                got = f'{type(e).__name__}: {e}'
+            n_cases += 1
+            if not pct_ok(got, exact):
+                bad = f'{FORMULAS[cell]} with {ov} = {got!r} :: x/100 is {float(exact)!r}'
+                break
+    conds['percent.grid'] = ('violated', n_cases, bad) if bad else ('holds', n_cases, 'x% (also x%*y, y*x%) equals x/100 to 15 significant digits on the whole grid, zero and blank included')
+    return dict(conds=conds, secs=round(time.time() - t0, 1))
+
+
+
+def native(func, m, s, n, neg, asint=False):
     RT = build.load_class(build.runtime_source(), '_rt_c16n', narrow=False)()
     from fractions import Fraction
-    x = float(Fraction(-m if neg else m, 10 ** s))
+    x = (-m if neg else m) if asint else float(Fraction(-m if neg else m, 10 ** s))
     return x, getattr(RT, func)(x, n), ref_decimal(func, m, s, n, neg)
 
 
@@ -194,7 +337,20 @@ def run(report, tier, seed):
                     if tier == 'quick' and n < 0 and s > 0:
                         continue
                     jobs.append((f'{f}_s{s}_n{n}_{"neg" if neg else "pos"}', _job, (f, s, n, neg, mmax, region_src, to, tier != 'quick')))
+    for f in FUNCS:                     # whole numbers arriving as Python ints (integer cells, integer literals), incl. negative digit counts
+        for n in ([-2, -1, 0, 1] if tier == 'quick' else [-4, -3, -2, -1, 0, 1, 2]):
+            for neg in (False, True):
+                jobs.append((f'{f}_int_n{n}_{"neg" if neg else "pos"}', _job, (f, 0, n, neg, mmax * 5, None, to, False, True)))
+    jobs.append(('formulas', _formula_job, (tier,)))
     res = e2.run_jobs(jobs, NCPU, deadline=to * 2 + 120)
+    fr = res.pop('formulas', {'error': 'formula job missing'})
+    if 'error' in fr:
+        report.condition('formula.level', 'native', 'inconclusive', detail=fr['error'])
+    else:
+        for cname, (verdict, n_cases, detail) in sorted(fr['conds'].items()):
+            report.condition('formula.' + cname, 'grid', verdict, fr['secs'], n_cases, detail)
+            if verdict == 'violated':
+                report.violation('formula.' + cname, detail.split(' :: ')[0], detail)
     structural_round = None
     for name, r in res.items():
         cname = 'round.' + name
@@ -205,7 +361,7 @@ def run(report, tier, seed):
         if r['failures']:
             f = r['failures'][0]
             if f['kind'] in ('exact', 'bound'):
-                x, got, exp = native(r['func'], f['m'], r['s'], r['n'], r['neg'])
+                x, got, exp = native(r['func'], f['m'], r['s'], r['n'], r['neg'], r.get('asint', False))
                 bad = not (got == exp) if f['kind'] == 'exact' else abs(got - exp) > 10.0 ** (-r['n']) * 1.0000001
                 detail = f'{r["func"]}({x!r}, {r["n"]}) = {got!r}, decimal-exact result is {exp!r}' + (' (inside the known region: more than one unit away)' if f['kind'] == 'bound' else '')
                 if bad:
@@ -237,10 +393,12 @@ def run(report, tier, seed):
                 report.known_finding(f'{f}({x!r}, {w["n"]}) = {got!r}, decimal-exact result is {exp!r} :: {e.get("what", "")}', key=e.get('what'))
             else:
                 report.note(f'known finding no longer reproduces: {f} {w}')
-    report.encoded('ExcelInPython._roundup', 'ExcelInPython._rounddown', 'ExcelInPython._round')
+    report.encoded('ExcelInPython._roundup', 'ExcelInPython._rounddown', 'ExcelInPython._round', 'ExcelInPython._normalize_float_number (native)', 'RoundCcTokenTranslator / RoundupCcTokenTranslator / RounddownCcTokenTranslator (emitted code)', 'OperandTokenTranslator (percent)')
     report.bound(f'decimal inputs sign x M/10^s, 1 <= M < {mmax}, s in {ss}; digit counts n in {ns}')
-    report.assume('x% : the .15g normalisation (C formatting) is not encodable; the statement "x% equals x/100 to 15 significant digits" is NOT decided here '
-                  '(C01 pins that x% is emitted as normalize(x/100))',
+    report.assume('x% : the .15g normalisation (C formatting) is not encodable for the solver; "x% equals x/100 to 15 significant digits" is therefore not a solver verdict: '
+                  'it is executed natively on a grid of decimals sign x M x 10^e (M < 400 / 4000, e in -16..8, zero and blank) through the real emitted cell code (conditions formula.percent.grid)',
+                  'formula.* conditions: real lexer/parser/translators on a real .xlsx; delegation of ROUND/ROUNDUP/ROUNDDOWN (digits omitted / empty / 0) to the helper decided by the FP jobs, plus native witness values',
+                  '*_int_* jobs: the number is presented as a Python int (isinstance(x, int) holds), arithmetic on the exactly converted double',
                   'float.__round__ (C, dtoa) is not encoded: _round is decided structurally (body == round(number, int(digits))); the semantics of Python round() '
                   'versus Excel ROUND on ties is a recorded known finding',
                   'ceil/floor results are kept as integral FP terms (exact below 2**53)')
